@@ -72,6 +72,21 @@ def run(ctx):
     for i, h in enumerate(hists):
         traces.append({"tid": i + 1, "meta": {"kind": "tlc-history"}, "events": replay(h)})
     ctx.extra["tlc_histories_replayed"] = len(hists)
+    # longer behaviours straight from TLC's simulation mode (random walks through the same Next), 4 vertices, 10 calls
+    sim_cfg = CFG.format(k=10).replace("{1, 2, 3}", "{1, 2, 3, 4}")
+    rs = ctx.mc("MC_GraphRep", sim_cfg, tag="simulate", workers=1,
+                extra=["-simulate", "num=%d" % (40 if ctx.quick else 400), "-depth", "11", "-seed", str(ctx.seed % 100000)])
+    sims = []
+    seen = set()
+    for pr in rs.prints:
+        if pr[0] == "HIST" and pr[1] not in seen:
+            seen.add(pr[1])
+            sims.append(json.loads(pr[1]))
+    sims = sims[:300 if ctx.quick else 6000]
+    ctx.extra["tlc_simulated_histories_replayed"] = len(sims)
+    for h in sims:
+        traces.append({"tid": len(traces) + 1, "meta": {"kind": "tlc-simulated-history"}, "events": replay(h)})
+    base = len(traces)
     for j in range(40 if ctx.quick else 2000):
         calls = []
         for _ in range(rng.randint(10, 30)):
@@ -79,6 +94,6 @@ def run(ctx):
             u, v = rng.sample(range(1, 6), 2)
             w = [rng.choice(GATES) for _ in range(rng.randint(0, 4))] if a in ("add_node", "update_lc") and rng.random() < 0.6 else []
             calls.append({"a": a, "u": u, "v": v if a == "add_edge" else 0, "w": w})
-        traces.append({"tid": len(hists) + j + 1, "meta": {"kind": "random-history"}, "events": replay(calls)})
+        traces.append({"tid": base + j + 1, "meta": {"kind": "random-history"}, "events": replay(calls)})
     ctx.judge("Trace_GraphRep", traces, label="G/J: TLC-generated and random call histories on the real Graph object")
     ctx.assumptions.append("extension check: not one of the listed properties; add_edge(u, u) (self loop) is outside the model")
